@@ -11,7 +11,7 @@ from fractions import Fraction
 
 from vt import coqio
 from vt.coqio import cbool, clist, cnat, copt
-from drivers.fake_eio_client import FakeEio, FakeAsyncEio, AsyncioShim
+from drivers.fake_eio_client import FakeEio, FakeAsyncEio, AsyncioShim, Runaway
 
 IMPORTS = ('From Coq Require Import List ZArith QArith.\nImport ListNotations.\n'
            'From VT Require Import Base.PyVal Reconnect.Reconnect Check.C10Check.')
@@ -286,58 +286,68 @@ def run_sync(sc):
     old_random, client_mod.random = client_mod.random, rnd
     old_osh = base_client.original_signal_handler
     effects, events = [], []
+    def do_event(ev):
+        k = ev[0]
+        if k == 'connect':
+            fake.next_outcome = ev[3]
+            kw = args_py(ev[1])
+            try:
+                client.connect(kw.pop('url'), namespaces=[ns_name(n) for n in ev[2]], **kw)
+                log.append(('result', 'ok'))
+            except sio_exc.ConnectionError:
+                log.append(('result', 'connection_error'))
+            except ValueError:
+                log.append(('result', 'value_error'))
+        elif k == 'loss':
+            rnd.queue = [num(ev[1])]
+            fake.transport_error()
+        elif k == 'disconnect':
+            client.disconnect()
+        elif k == 'sdisc':
+            from socketio import packet
+            fake.deliver(client.packet_class(packet.DISCONNECT, namespace=ns_name(ev[1])).encode())
+        elif k == 'sclose':
+            fake.server_close()
+        elif k == 'shutdown':
+            client.shutdown()
+        elif k == 'sigint':
+            base_client.original_signal_handler = lambda s, f: None
+            base_client.signal_handler(signal.SIGINT, None)
+        elif k == 'timeout':
+            live = fake.live_tasks()
+            fired = [False]
+            if ev[1] < len(live):
+                fake.next_outcome = ev[2]
+                rnd.queue = [num(ev[3])]
+                if ev[4]:
+                    def hook():
+                        if client.connected and not fired[0]:
+                            fired[0] = True
+                            fake.transport_error()
+                    client.logger.armed = hook
+                fake.drive(live[ev[1]])
+                client.logger.armed = None
+            if ev[4] and not fired[0]:
+                ev[4] = False           # no switch point was reached: the race did not happen
+        fake.run_new_tasks()
+        fake.wake_flagged()
+
     try:
         for ev in sc['events']:
             ev = list(ev)
             start = len(log)
-            k = ev[0]
-            if k == 'connect':
-                fake.next_outcome = ev[3]
-                kw = args_py(ev[1])
-                try:
-                    client.connect(kw.pop('url'), namespaces=[ns_name(n) for n in ev[2]], **kw)
-                    log.append(('result', 'ok'))
-                except sio_exc.ConnectionError:
-                    log.append(('result', 'connection_error'))
-                except ValueError:
-                    log.append(('result', 'value_error'))
-            elif k == 'loss':
-                rnd.queue = [num(ev[1])]
-                fake.transport_error()
-            elif k == 'disconnect':
-                client.disconnect()
-            elif k == 'sdisc':
-                from socketio import packet
-                fake.deliver(client.packet_class(packet.DISCONNECT, namespace=ns_name(ev[1])).encode())
-            elif k == 'sclose':
-                fake.server_close()
-            elif k == 'shutdown':
-                client.shutdown()
-            elif k == 'sigint':
-                base_client.original_signal_handler = lambda s, f: None
-                base_client.signal_handler(signal.SIGINT, None)
-            elif k == 'timeout':
-                live = fake.live_tasks()
-                fired = [False]
-                if ev[1] < len(live):
-                    fake.next_outcome = ev[2]
-                    rnd.queue = [num(ev[3])]
-                    if ev[4]:
-                        def hook():
-                            if client.connected and not fired[0]:
-                                fired[0] = True
-                                fake.transport_error()
-                        client.logger.armed = hook
-                    fake.drive(live[ev[1]])
-                    client.logger.armed = None
-                if ev[4] and not fired[0]:
-                    ev[4] = False           # no switch point was reached: the race did not happen
-            fake.run_new_tasks()
-            fake.wake_flagged()
+            fake.ticks = 0
+            stop = False
+            try:
+                do_event(ev)
+            except Runaway:
+                stop = True
             rnd.queue = []
             fake.next_outcome = None
             effects.append(canon_log(log[start:]))
             events.append(ev)
+            if stop or any(e[0] in ('runaway', 'task_hung') for e in log[start:]):
+                break
         final = _final_state(client, fake, [t.tid for t in fake.live_tasks()],
                              lambda t: t.tid if hasattr(t, 'tid') else 99)
     finally:
@@ -364,50 +374,60 @@ async def _run_async(sc):
     old_asyncio, client_mod.asyncio = client_mod.asyncio, AsyncioShim(fake)
     old_osh = base_client.original_signal_handler
     effects, events = [], []
+    async def do_event(ev):
+        k = ev[0]
+        if k == 'connect':
+            fake.next_outcome = ev[3]
+            kw = args_py(ev[1])
+            try:
+                await client.connect(kw.pop('url'), namespaces=[ns_name(n) for n in ev[2]], **kw)
+                log.append(('result', 'ok'))
+            except sio_exc.ConnectionError:
+                log.append(('result', 'connection_error'))
+            except ValueError:
+                log.append(('result', 'value_error'))
+        elif k == 'loss':
+            rnd.queue = [num(ev[1])]
+            await fake.transport_error()
+        elif k == 'disconnect':
+            await client.disconnect()
+        elif k == 'sdisc':
+            from socketio import packet
+            await fake.deliver(client.packet_class(packet.DISCONNECT, namespace=ns_name(ev[1])).encode())
+        elif k == 'sclose':
+            await fake.server_close()
+        elif k == 'shutdown':
+            await client.shutdown()
+        elif k == 'sigint':
+            base_client.original_signal_handler = lambda s, f: None
+            base_client.signal_handler(signal.SIGINT, None)
+        elif k == 'timeout':
+            ev[4] = False               # no switch point between awaits in the asyncio client
+            live = fake.live_tasks()
+            if ev[1] < len(live):
+                fake.next_outcome = ev[2]
+                rnd.queue = [num(ev[3])]
+                gate = fake.parked.get(live[ev[1]])
+                if gate is not None and not gate.done():
+                    gate.set_result(False)
+        await fake.settle()
+
     try:
         for ev in sc['events']:
             ev = list(ev)
             start = len(log)
-            k = ev[0]
-            if k == 'connect':
-                fake.next_outcome = ev[3]
-                kw = args_py(ev[1])
-                try:
-                    await client.connect(kw.pop('url'), namespaces=[ns_name(n) for n in ev[2]], **kw)
-                    log.append(('result', 'ok'))
-                except sio_exc.ConnectionError:
-                    log.append(('result', 'connection_error'))
-                except ValueError:
-                    log.append(('result', 'value_error'))
-            elif k == 'loss':
-                rnd.queue = [num(ev[1])]
-                await fake.transport_error()
-            elif k == 'disconnect':
-                await client.disconnect()
-            elif k == 'sdisc':
-                from socketio import packet
-                await fake.deliver(client.packet_class(packet.DISCONNECT, namespace=ns_name(ev[1])).encode())
-            elif k == 'sclose':
-                await fake.server_close()
-            elif k == 'shutdown':
-                await client.shutdown()
-            elif k == 'sigint':
-                base_client.original_signal_handler = lambda s, f: None
-                base_client.signal_handler(signal.SIGINT, None)
-            elif k == 'timeout':
-                ev[4] = False               # no switch point between awaits in the asyncio client
-                live = fake.live_tasks()
-                if ev[1] < len(live):
-                    fake.next_outcome = ev[2]
-                    rnd.queue = [num(ev[3])]
-                    gate = fake.parked.get(live[ev[1]])
-                    if gate is not None and not gate.done():
-                        gate.set_result(False)
-            await fake.settle()
+            fake.ticks = 0
+            stop = False
+            try:
+                await do_event(ev)
+            except Runaway:
+                stop = True
             rnd.queue = []
             fake.next_outcome = None
             effects.append(canon_log(log[start:]))
             events.append(ev)
+            if stop or any(e[0] in ('runaway', 'not_quiescent') for e in log[start:]):
+                break
         final = _final_state(client, fake, [t.tid for t in fake.live_tasks()],
                              lambda t: getattr(t, 'tid', 99))
     finally:
@@ -431,3 +451,436 @@ def run_async_many(scs):
 
 def run_async(sc):
     return run_async_many([sc])[0]
+
+
+# ------------------------------------------------------------------ pre-state snapshots / classifier
+def classify(sc, kind, obs, code):
+    """Structural signature of a property violation (code has bit 2)."""
+    clauses = [c for c in range(2, 9) if code & (1 << c)]
+    if 8 in clauses:
+        live = []
+        for i, (ev, es) in enumerate(zip(obs['events'], obs['effects'])):
+            had = bool(live)
+            for e in es:
+                if e[0] == 'spawn':
+                    live.append(e[1])
+                elif e[0] == 'task_end' and e[1] in live:
+                    live.remove(e[1])
+            if sc['params']['reconnection'] and ('lost',) in es and not live:
+                if ev[0] == 'timeout' and ev[4] and had:
+                    return SIG_WINDOW, i
+                if ev[0] == 'loss' and probe_stale_before(sc, kind, i):
+                    return SIG_STALE, i
+                return 'no-effort-after-accidental-loss', i
+    names = {2: 'delay', 3: 'attempts', 4: 'only-accidental', 5: 'abort', 6: 'single-effort', 7: 'same-parameters',
+             8: 'retry'}
+    return 'c10-' + '+'.join(names[c] for c in clauses or [8]), None
+
+
+def probe_stale_before(sc, kind, i):
+    """Re-run the prefix before event i and look at _reconnect_task on the real client."""
+    pre = dict(sc, events=sc['events'][:i])
+    o = run_one(pre, kind)
+    return o['final']['rtask'] is not None and o['final']['rtask'] not in o['final']['live']
+
+
+def run_one(sc, kind):
+    return run_sync(sc) if kind == 'sync' else run_async(sc)
+
+
+def detect_variant():
+    """Which `_reconnect_task = None` placement does the tree under test have?  (model parameter
+    `fixed`).  Decided by one probe on each real class; the correspondence then checks every case
+    against the chosen variant."""
+    probe = {'params': {'reconnection': True, 'attempts': 1, 'delay': [1, 1], 'delay_max': [5, 1], 'rf': [0, 1]},
+             'events': [['connect', [1, 1, 1, 0, 1], [0], 'a'], ['loss', [1, 2]], ['timeout', 0, 'err', [1, 2], False]]}
+    res = []
+    for kind in ('sync', 'async'):
+        o = run_one(probe, kind)
+        res.append(o['final']['rtask'] is None and not o['final']['live'])
+    return res
+
+
+# ------------------------------------------------------------------ generators
+DELAYS = [[1, 1], [1, 2], [2, 1], [1, 4], [3, 2], [3, 1]]
+DMAXS = [[5, 1], [1, 1], [4, 1], [1, 2], [3, 1], [8, 1]]
+RFS = [[1, 2], [0, 1], [1, 4], [1, 1], [2, 1], [1, 8]]
+ATTEMPTS = [0, 1, 2, 3, 5]
+RS = [[0, 1], [1, 4], [1, 2], [3, 4], [7, 8], [1, 8], [63, 64], [1, 64]]
+
+
+def gen_params(rng, reconnection=True):
+    return {'reconnection': reconnection, 'attempts': rng.choice(ATTEMPTS), 'delay': rng.choice(DELAYS),
+            'delay_max': rng.choice(DMAXS), 'rf': rng.choice(RFS)}
+
+
+def param_grid(rng, n):
+    pts = []
+    seen = set()
+    while len(pts) < n:
+        p = gen_params(rng)
+        k = repr(p)
+        if k not in seen:
+            seen.add(k)
+            pts.append(p)
+    # the defaults of the class and the corners are always in
+    pts[0] = {'reconnection': True, 'attempts': 0, 'delay': [1, 1], 'delay_max': [5, 1], 'rf': [1, 2]}
+    pts[1] = {'reconnection': True, 'attempts': 3, 'delay': [1, 4], 'delay_max': [1, 2], 'rf': [2, 1]}
+    return pts
+
+
+def gen_args(rng):
+    return [rng.randrange(1, 4), rng.randrange(1, 4), rng.randrange(1, 4), rng.randrange(0, 4), rng.randrange(1, 4)]
+
+
+def gen_nss(rng):
+    return rng.choice([[0], [0], [1], [0, 1], [1, 0], [0, 1, 2], [2, 1], [1, 2]])
+
+
+def fail_outcome(rng, nss, sym):
+    """sym: 'E' transport-level failure, 'R' namespace refusal / silence."""
+    if sym == 'E':
+        return 'err'
+    o = ['a'] * len(nss)
+    bad = rng.randrange(len(nss))
+    o[bad] = rng.choice('rrs')
+    for j in range(len(nss)):
+        if j != bad and rng.random() < 0.25:
+            o[j] = rng.choice('rs')
+    return ''.join(o)
+
+
+def ok_outcome(nss):
+    return 'a' * len(nss)
+
+
+def structured(rng, params, pattern, abort_at, abort_kind, cause, after, race=False):
+    """One history: connect; cause of the loss; the effort following `pattern` (E/R failures, O
+    success) with the abort at back-off wait number `abort_at`; then `after`."""
+    args, nss = gen_args(rng), gen_nss(rng)
+    evs = [['connect', args, nss, ok_outcome(nss)]]
+    if rng.random() < 0.15:
+        evs.insert(0, ['connect', gen_args(rng), gen_nss(rng), rng.choice(['err', 'r', 's'])])
+
+    def r():
+        return rng.choice(RS)
+
+    if cause == 'loss':
+        evs.append(['loss', r()])
+    elif cause == 'disconnect':
+        evs.append(['disconnect'])
+    elif cause == 'sdisc':
+        for n in rng.sample(nss, len(nss)):
+            evs.append(['sdisc', n])
+    elif cause == 'sclose':
+        evs.append(['sclose'])
+    n_att = 0
+    live = cause == 'loss' and params['reconnection']
+    for k, sym in enumerate(pattern):
+        if abort_at is not None and k == abort_at:
+            evs.append([abort_kind])
+            live = False
+        if sym == 'O':
+            evs.append(['timeout', 0, ok_outcome(nss), r(), race and rng.random() < 0.7])
+            if live:
+                live = False
+                n_att = 0
+                if k + 1 < len(pattern):          # a further loss right after the reconnection
+                    evs.append(['loss', r()])
+                    live = params['reconnection']
+        else:
+            evs.append(['timeout', 0, fail_outcome(rng, nss, sym), r(), False])
+            if live:
+                n_att += 1
+                if params['attempts'] and n_att >= params['attempts']:
+                    live = False
+                    n_att = 0
+                    if k + 1 < len(pattern):      # gave up: the application connects again, new loss
+                        if rng.random() < 0.5:
+                            args, nss = gen_args(rng), gen_nss(rng)
+                        evs.append(['connect', args, nss, ok_outcome(nss)])
+                        evs.append(['loss', r()])
+                        live = params['reconnection']
+    if abort_at is not None and abort_at >= len(pattern):
+        evs.append([abort_kind])
+    for a in after:
+        if a == 'connect':
+            if rng.random() < 0.5:
+                args, nss = gen_args(rng), gen_nss(rng)
+            evs.append(['connect', args, nss, ok_outcome(nss)])
+        elif a == 'loss':
+            evs.append(['loss', r()])
+        elif a == 'timeout_ok':
+            evs.append(['timeout', 0, ok_outcome(nss), r(), False])
+        elif a == 'timeout_err':
+            evs.append(['timeout', 0, 'err', r(), False])
+        else:
+            evs.append([a])
+    return {'params': params, 'events': evs}
+
+
+def random_walk(rng, params, n):
+    evs = []
+    args, nss = gen_args(rng), gen_nss(rng)
+    for _ in range(n):
+        x = rng.random()
+        if x < 0.2:
+            if rng.random() < 0.4:
+                args, nss = gen_args(rng), gen_nss(rng)
+            o = ok_outcome(nss) if rng.random() < 0.75 else fail_outcome(rng, nss, rng.choice('ER'))
+            evs.append(['connect', args, nss, o])
+        elif x < 0.4:
+            evs.append(['loss', rng.choice(RS)])
+        elif x < 0.7:
+            o = ok_outcome(nss) if rng.random() < 0.3 else fail_outcome(rng, nss, rng.choice('EER'))
+            evs.append(['timeout', rng.choice([0, 0, 0, 0, 1]), o, rng.choice(RS), rng.random() < 0.15])
+        elif x < 0.76:
+            evs.append(['disconnect'])
+        elif x < 0.84:
+            evs.append(['sdisc', rng.choice(nss + [rng.randrange(3)])])
+        elif x < 0.89:
+            evs.append(['sclose'])
+        elif x < 0.96:
+            evs.append(['shutdown'])
+        else:
+            evs.append(['sigint'])
+    return {'params': params, 'events': evs}
+
+
+def all_patterns(maxlen, alphabet='ERO'):
+    for n in range(1, maxlen + 1):
+        for t in itertools.product(alphabet, repeat=n):
+            yield ''.join(t)
+
+
+def scenarios(rng, thorough):
+    """Yield (label, scenario)."""
+    maxlen = 7 if thorough else 4
+    # (0) corpus: the minimal witnesses of the known findings come first (their replay files)
+    dflt = {'reconnection': True, 'attempts': 1, 'delay': [1, 1], 'delay_max': [5, 1], 'rf': [1, 2]}
+    a0 = [1, 1, 1, 0, 1]
+    yield 'corpus', {'params': dflt, 'events': [
+        ['connect', a0, [0], 'a'], ['loss', [1, 4]], ['timeout', 0, 'err', [1, 2], False],
+        ['connect', a0, [0], 'a'], ['loss', [3, 4]]]}
+    yield 'corpus', {'params': dict(dflt, attempts=0), 'events': [
+        ['connect', a0, [0], 'a'], ['loss', [1, 4]], ['shutdown'],
+        ['connect', a0, [0], 'a'], ['loss', [3, 4]]]}
+    yield 'corpus', {'params': dict(dflt, attempts=0), 'events': [
+        ['connect', a0, [0], 'a'], ['loss', [1, 4]], ['timeout', 0, 'a', [1, 2], True]]}
+    yield 'corpus', {'params': dict(dflt, attempts=0), 'events': [       # edge: connect() during the back-off
+        ['connect', a0, [0], 'a'], ['loss', [1, 4]], ['connect', a0, [0], 'a'], ['shutdown'],
+        ['timeout', 0, 'a', [1, 2], False]]}
+    grid = param_grid(rng, 60 if thorough else 12)
+    pats = list(all_patterns(4)) if not thorough else \
+        list(all_patterns(5)) + [''.join(rng.choice('EERO') for _ in range(rng.choice([6, 7]))) for _ in range(900)]
+    # (a) every pattern x parameter points, accidental loss, abort position drawn
+    per_pat = 12 if not thorough else 10
+    for pat in pats:
+        for p in rng.sample(grid, min(per_pat, len(grid))):
+            ab = rng.choice([None, None, None] + list(range(len(pat) + 1)))
+            after = rng.choice([[], ['connect', 'loss'], ['connect', 'loss', 'timeout_ok'], ['loss'],
+                                ['connect', 'loss', 'timeout_err', 'timeout_ok', 'loss']])
+            yield 'pattern', structured(rng, p, pat, ab, rng.choice(['shutdown', 'shutdown', 'sigint']), 'loss', after)
+    # (b) every abort position for a few patterns
+    for pat in [q for q in pats if len(q) <= maxlen and 'O' not in q[:-1]][:40 if not thorough else 200]:
+        for ab in range(len(pat) + 1):
+            p = rng.choice(grid)
+            yield 'abort', structured(rng, p, pat, ab, 'shutdown', 'loss', rng.choice([[], ['connect', 'loss', 'timeout_ok']]))
+    # (c) causes of loss
+    for cause in ('disconnect', 'sdisc', 'sclose', 'loss-disabled', 'loss'):
+        for p in grid:
+            for pat in rng.sample(pats, 4 if not thorough else 10):
+                q = dict(p)
+                c = cause
+                if cause == 'loss-disabled':
+                    q['reconnection'] = False
+                    c = 'loss'
+                yield 'cause-' + cause, structured(rng, q, pat, None, 'shutdown', c,
+                                                   rng.choice([['loss'], ['connect', 'loss', 'timeout_ok'], ['shutdown', 'loss']]))
+    # (d) what happens after a failed effort: manual connect + second accidental loss
+    for p in grid:
+        for n in (1, 2, 3):
+            q = dict(p, attempts=n)
+            pat = 'E' * n if rng.random() < 0.5 else ''.join(rng.choice('ER') for _ in range(n))
+            yield 'after-gave-up', structured(rng, q, pat, None, 'shutdown', 'loss',
+                                              ['connect', 'loss', 'timeout_ok', 'loss', 'timeout_err'])
+        yield 'after-abort', structured(rng, p, 'E', 1, 'shutdown', 'loss', ['connect', 'loss', 'timeout_ok'])
+    # (e) thread race window: loss between a successful connect() and `_reconnect_task = None`
+    for p in grid[:6 if not thorough else 30]:
+        yield 'race', structured(rng, p, rng.choice(['O', 'EO', 'RO', 'EEO']), None, 'shutdown', 'loss',
+                                 ['loss', 'timeout_ok'], race=True)
+    # (f) random walks (connect / disconnect / shutdown at odd moments)
+    for _ in range(2500 if thorough else 500):
+        p = gen_params(rng, reconnection=rng.random() < 0.85)
+        yield 'walk', random_walk(rng, p, rng.randrange(3, 14))
+
+
+def event_key(sc, obs):
+    ks = []
+    for ev in obs['events']:
+        k = ev[0]
+        if k == 'connect':
+            k += ':' + ('ok' if set(ev[3]) == {'a'} else 'err' if ev[3] == 'err' else 'ref')
+        if k == 'timeout':
+            k += ':' + ('ok' if set(ev[2]) == {'a'} else 'err' if ev[2] == 'err' else 'ref') + ('!' if ev[4] else '')
+        ks.append(k)
+    return tuple(ks)
+
+
+def nontrivial(obs):
+    return any(e[0] in ('lost', 'spawn', 'wait') or (e[0] == 'h' and e[1] == 'connect_error')
+               for es in obs['effects'] for e in es)
+
+
+# ------------------------------------------------------------------ the check
+def evaluate(name, items, fixed_of):
+    """items: list of (sc, kind, obs).  Returns (codes dict, errors)."""
+    terms = [case_term(sc, obs, fixed_of[kind]) for sc, kind, obs in items]
+    return coqio.eval_cases(name, IMPORTS, '', 'c10case', terms, 'c10_eval'), terms
+
+
+def run_all(scs, kinds=('sync', 'async')):
+    items = []
+    if 'sync' in kinds:
+        for sc in scs:
+            items.append((sc, 'sync', run_sync(sc)))
+    if 'async' in kinds:
+        for sc, o in zip(scs, run_async_many(scs)):
+            items.append((sc, 'async', o))
+    return items
+
+
+def run(chk):
+    rng = chk.rng
+    chk.rule = ('fault histories on the real Client and AsyncClient over the fake engine.io client: every pattern '
+                'of attempt outcomes (transport failure / namespace refusal or silence / success) up to length 4 '
+                '(thorough: 5, sampled to 7) x 12 (60) dyadic parameter points x abort positions x causes of loss '
+                'x follow-ups, plus random walks over all events; a case is non-trivial when it contains a loss of '
+                'a connected transport, a reconnect task, a back-off wait or a refused connection; distinct by the '
+                'sequence of event kinds with outcome classes (and client kind)')
+    chk.trusted_base = [
+        'Coq 8.16.1 kernel + vm_compute (case evaluation)',
+        'hand model Reconnect/Reconnect.v (transcription of client.py/async_client.py reconnection code and of '
+        'the engine.io client state contract)',
+        'harness/drivers/fake_eio_client.py: fake engine.io clients written against engineio 4.14 client.py / '
+        'async_client.py (state is still "connected" when a transport error is reported, "disconnecting" during '
+        'disconnect() and on a CLOSE packet; send dropped unless connected; connect handler synchronous)',
+        'the baton scheduler: a reconnect task only runs between two back-off waits while the controller waits; '
+        'server answers to CONNECT packets arrive before connect() starts waiting',
+        'socketio.packet.Packet is used by the fake to classify and build CONNECT/DISCONNECT packets',
+        'harness/props/c10.py generators, canonicalisation (tokens for url/headers/auth/transports/path) and '
+        'the Python->Gallina printer; floats are converted exactly (Fraction) and all injected numbers are dyadic']
+    chk.assumptions = [
+        'random.random() returns some r in [0,1) (C10_delay quantifies over every such r)',
+        'engine.io calls the disconnect handler with state "connected" only for transport errors '
+        '(engineio/client.py _read_loop_*), and with "disconnecting" for disconnect() and CLOSE',
+        'handlers registered by the application do not raise and do not call back into the client',
+        'asyncio granularity = thread granularity except for the switch point between connect() returning and '
+        '`_reconnect_task = None` (events Timeout .. true), which exists in the threaded client only']
+    chk.prove()
+
+    fixed = detect_variant()
+    fixed_of = {'sync': fixed[0], 'async': fixed[1]}
+    chk.extra['variant'] = {k: ('fixed' if v else 'pinned') for k, v in fixed_of.items()}
+
+    labelled = list(scenarios(rng, chk.thorough))
+    scs = [sc for _, sc in labelled]
+    items = run_all(scs)
+    labels = [l for l, _ in labelled] * 2
+    (codes, errors), terms = evaluate('c10', items, fixed_of)
+    chk.traces_validated = len(items)
+    for e in errors:
+        chk.broken_obligation('case evaluation failed: ' + e)
+    for idx, (sc, kind, obs) in enumerate(items):
+        key = (kind,) + event_key(sc, obs) if nontrivial(obs) else None
+        chk.count(1, key, {'client': kind, 'params': sc['params'], 'events': obs['events'],
+                           'effects': [[list(e) for e in es] for es in obs['effects']][:4]} if idx % 997 == 3 else None)
+        chk.dist('%s/%s' % (kind, labels[idx]))
+        chk.dist('events=%d' % min(len(obs['events']), 12))
+    disagree = []
+    new_failing_input = False
+    for idx, code in sorted(codes.items()):
+        sc, kind, obs = items[idx]
+        rep = {'client': kind, 'scenario': sc, 'fixed': fixed_of[kind], 'code': code}
+        if code & 2:
+            sig, at = classify(sc, kind, obs, code)
+            if sig not in (SIG_STALE, SIG_WINDOW) or code & 1:
+                new_failing_input = True
+            chk.violation(sig, 'the real %s violates C10 (clauses %s) at event %s of the history' % (
+                'Client' if kind == 'sync' else 'AsyncClient',
+                [c for c in range(2, 9) if code & (1 << c)], at), rep)
+        elif code & 1:
+            disagree.append((idx, rep))
+    if disagree:
+        for idx, rep in disagree[:3]:
+            chk.broken_obligation('correspondence: model Reconnect.v and the real %s disagree on %r' % (
+                rep['client'], rep['scenario']))
+        chk.extra['disagreements'] = len(disagree)
+        if not new_failing_input:
+            new_failing_input = directed_search(chk, rng, [items[i] for i, _ in disagree[:20]], fixed_of)
+        if not new_failing_input:
+            chk.violation('c10-correspondence', 'model Reconnect/Reconnect.v and src/socketio/%s disagree' % (
+                'client.py' if disagree[0][1]['client'] == 'sync' else 'async_client.py'),
+                disagree[0][1], no_input=True)
+
+
+def directed_search(chk, rng, bad_items, fixed_of):
+    """The model and the code disagree: look for an input on which the PROPERTY fails on the code
+    (neighbourhood of the disagreeing histories + 10x random walks)."""
+    scs = []
+    for sc, kind, obs in bad_items:
+        evs = sc['events']
+        for cut in range(1, len(evs) + 1):
+            for tail in ([], [['timeout', 0, 'err', [1, 2], False]] * 3,
+                         [['connect', [1, 1, 1, 0, 1], [0], 'a'], ['loss', [1, 4]], ['timeout', 0, 'a', [1, 2], False]],
+                         [['shutdown'], ['timeout', 0, 'a', [1, 2], False]],
+                         [['disconnect'], ['timeout', 0, 'a', [1, 2], False], ['loss', [1, 2]]]):
+                scs.append({'params': sc['params'], 'events': evs[:cut] + tail})
+    for _ in range(3000):
+        scs.append(random_walk(rng, gen_params(rng, rng.random() < 0.85), rng.randrange(3, 14)))
+    for p in param_grid(rng, 12):
+        for pat in all_patterns(4):
+            scs.append(structured(rng, p, pat, rng.choice([None, None, 0, 1, 2]), 'shutdown', 'loss',
+                                  rng.choice([[], ['connect', 'loss', 'timeout_ok']])))
+    items = run_all(scs)
+    (codes, errors), terms = evaluate('c10search', items, fixed_of)
+    hit = False
+    for idx, code in sorted(codes.items()):
+        if code & 2:
+            sc, kind, obs = items[idx]
+            sig, at = classify(sc, kind, obs, code)
+            before = len(chk.violations) + len(chk.known_hits)
+            chk.violation(sig, 'directed search: the real %s violates C10 (clauses %s) at event %s' % (
+                kind, [c for c in range(2, 9) if code & (1 << c)], at),
+                {'client': kind, 'scenario': sc, 'fixed': fixed_of[kind], 'code': code})
+            if sig not in (SIG_STALE, SIG_WINDOW) and len(chk.violations) + len(chk.known_hits) > before:
+                hit = True
+    return hit
+
+
+def replay(chk, data):
+    rep = data['replay']
+    if 'scenario' not in rep:
+        print(rep)
+        return 1
+    sc, kind = rep['scenario'], rep.get('client', 'sync')
+    obs = run_one(sc, kind)
+    fixed = detect_variant()[0 if kind == 'sync' else 1]
+    term = case_term(sc, obs, fixed)
+    for ev, es in zip(obs['events'], obs['effects']):
+        print(ev, '->', es)
+    print('final', obs['final'])
+    rc, out = coqio.eval_print('c10_replay', IMPORTS, '', ['c10_eval %s' % term, 'c10_explain %s' % term])
+    print(out)
+    first = out.split('\n')[0] if out else ''
+    code_ok = first.strip().startswith('= 0')
+    if not code_ok:
+        import re
+        m = re.search(r'=\s*(\d+)', out)
+        code = int(m.group(1)) if m else -1
+        print('code %d: %s' % (code, ', '.join(
+            ['model/implementation disagree'] * (code & 1) +
+            ['clause %d violated' % c for c in range(2, 9) if code > 0 and code & (1 << c)])))
+        if code > 0 and code & 2:
+            print('signature:', classify(sc, kind, obs, code)[0])
+    return 0 if code_ok else 1
